@@ -213,8 +213,13 @@ class History(BaseEngine):
             src = MidiFile(type=1, ticks_per_beat=plan['tpb'], tracks=[MidiTrack(
                 m.copy(time=int(m.time)) for m in t if not (not m.is_meta and m.type == 'clock')) for t in tracks])
             disk = simdisk.SimDisk()
-            src.save(file=disk.handle('src.mid', 'wb'))
-            a = MidiFile(file=disk.handle('src.mid', 'rb'))
+            try:
+                src.save(file=disk.handle('src.mid', 'wb'))
+                a = MidiFile(file=disk.handle('src.mid', 'rb'))
+            except Exception as e:
+                raise Violation(f'loaded-init-raised:{type(e).__name__}',
+                                f'saving plain storable content and loading it back (to start the history from a '
+                                f'loaded file) raised {e!r}')
             return a
         if plan['init'] == 'empty':
             return MidiFile(type=plan['type'], ticks_per_beat=plan['tpb'])
